@@ -1,6 +1,6 @@
 (* Case evaluator for the C18 correspondence shards: one case = one history of table-library
    calls and direct assignments on one table, each step with what the real code returned. *)
-From GL Require Import Common.Bytes Table.TImpl Table.TSpec Table.TLib.
+From GL Require Import Common.Bytes Table.TImpl Table.TSpec Table.TLib Table.TLibNest.
 
 Inductive lstep :=
 | LIns2 (v : value)
@@ -18,8 +18,15 @@ Inductive lstep :=
 | LMaxn (o : key)                         (* a number, as a numeric key *)
 | LLen (o : Z)
 | LRead (o : list value)                  (* rawget(t,1) .. rawget(t,#t+1) *)
-| LSort (c : cmp) (calls : list (value * value)) (raised : bool) (final : list value).
+| LSort (c : cmp) (calls : list (value * value)) (raised : bool) (final : list value)
    (* final = rawget(t,1..n) after the sort, n = #t before it *)
+| LSortMeta (desc : bool) (calls : list (value * value)) (raised : bool) (final : list value)
+   (* table.sort(t) (or with function(a,b) return a < b end) while the objects carry a metatable
+      whose __lt orders them by identity number (descending if desc); calls = the calls of __lt *)
+| LSortAt (l : list value) (c : cmp) (calls : list (value * value)) (raised : bool) (final : list value).
+   (* table.sort(u, c) on a fresh table u = the list l, run while something else is going on: from
+      inside the comparator / __lt of the LSort/LSortMeta step that follows (same Lua thread, or a
+      coroutine started there, or another Lua state), possibly under pcall; t is not involved *)
 
 Record case := mkCase { c_mai : Z; c_steps : list lstep }.
 
@@ -35,6 +42,17 @@ Definition exact_sort (c : cmp) (l : list value) : option (list value) :=
     if homogeneous l then Some (isort (fun a b => match lua_lt b a with Some true => true | _ => false end) l) else None
   | _ => None
   end.
+
+(* what sort.Sort left, against the slice cur it was given: a rearrangement, and the unique
+   sorted answer where there is one *)
+Definition sort_impl_ok (exact : option (list value)) (cur : list value) (raised : bool) (final : list value) : bool :=
+  perm_b final cur
+  && (if raised then true else match exact with Some l => vals_eqb l final | None => true end).
+
+Definition exact_sort_meta (desc : bool) (l : list value) : option (list value) :=
+  if all_objs l || homogeneous l
+  then Some (isort (fun a b => match meta_lt desc a b with Some true => true | _ => false end) l)
+  else None.
 
 Definition impl_step (mai : Z) (t : tbl) (s : lstep) : bool * tbl :=
   match s with
@@ -57,9 +75,14 @@ Definition impl_step (mai : Z) (t : tbl) (s : lstep) : bool * tbl :=
     (* sort.Sort is an oracle: the model checks that what it left is a rearrangement of
        arr[:Len] by swaps, and the unique sorted answer where there is one *)
     let cur := firstn (Z.to_nat (Len t)) (arr t) in
-    (perm_b final cur
-     && (if raised then true else match exact_sort c cur with Some l => vals_eqb l final | None => true end),
-     tableSort_with t final)
+    (sort_impl_ok (exact_sort c cur) cur raised final, tableSort_with t final)
+  | LSortMeta desc calls raised final =>
+    let cur := firstn (Z.to_nat (Len t)) (arr t) in
+    (sort_impl_ok (exact_sort_meta desc cur) cur raised final, tableSort_with t final)
+  | LSortAt l c calls raised final =>
+    let u := fold_left tableInsert2 l empty in
+    let cur := firstn (Z.to_nat (Len u)) (arr u) in
+    (sort_impl_ok (exact_sort c cur) cur raised final, t)
   end.
 
 Fixpoint impl_steps (mai : Z) (t : tbl) (ss : list lstep) : bool :=
@@ -82,6 +105,14 @@ Fixpoint calls_in (l : list value) (calls : list (value * value)) : bool :=
   | [] => true
   | (a, b) :: r => memb value_eqb a l && memb value_eqb b l && calls_in l r
   end.
+
+(* table.sort on the list l: a permutation; lt was called with elements only; an error only where
+   the comparator can fail; ordered whenever the comparator is a strict weak order on l *)
+Definition sort_spec_ok (ltf : value -> value -> option bool) (swo mayraise : bool)
+           (l : list value) (calls : list (value * value)) (raised : bool) (final : list value) : bool :=
+  perm_b final l
+  && calls_in l calls
+  && (if raised then mayraise else if swo then sorted_by ltf final else true).
 
 Definition lstate := option (list value * smap).
 
@@ -133,11 +164,13 @@ Definition spec_step (st : lstate) (s : lstep) : bool * lstate :=
     | LLen o => (o =? n, st)
     | LRead o => (vals_eqb (l ++ [VNil]) o, st)
     | LSort c calls raised final =>
-      (perm_b final l
-       && calls_in l calls
-       && (if raised then may_raise c l
-           else if swo_on c l then sorted_by (cmp_fun c 0) final else true),
-       keep final)
+      (sort_spec_ok (cmp_fun c 0) (swo_on c l) (may_raise c l) l calls raised final, keep final)
+    | LSortMeta desc calls raised final =>
+      let good := all_objs l || homogeneous l in
+      (sort_spec_ok (meta_lt desc) good (negb good) l calls raised final, keep final)
+    | LSortAt u c calls raised final =>
+      (forallb nonnil u
+       && sort_spec_ok (cmp_fun c 0) (swo_on c u) (may_raise c u) u calls raised final, st)
     end
   end.
 
